@@ -34,7 +34,7 @@ func init() {
 
 // ---------- DER encoding of names, by hand (multi-valued RDNs, any value type) ----------
 
-func derLen(n int) []byte {
+func c15_derLen(n int) []byte {
 	switch {
 	case n < 128:
 		return []byte{byte(n)}
@@ -48,7 +48,7 @@ func derLen(n int) []byte {
 }
 
 func derTLV(tag byte, content []byte) []byte {
-	out := append([]byte{tag}, derLen(len(content))...)
+	out := append([]byte{tag}, c15_derLen(len(content))...)
 	return append(out, content...)
 }
 
